@@ -23,7 +23,7 @@ var Props = []*h.Prop{
 		Stub:        stubQuery,
 		Assumptions: []string{"the property's model-checked clause is a different technique and is not claimed; this is exploration of the real reader and writer", "interleavings are controlled at file-system operations"}},
 	{ID: "C06", Run: c06, Bubble: true,
-		Rule:        "one evaluation = one valid database (2 interfaces x 3 days x 1-4 blocks) written by the real writer, 1-3 stored-byte damage faults (truncation, bit flips, garbage range, emptied, deleted, swapped files, file of another day, trailing garbage) applied to the column or metadata files of one (interface, day) - in one run of three one of the faults strikes while the first query runs, after a drawn number of its file-system operations - then three queries with time and interface labels (all data, victim interface only, victim day as first/last directory; 1-4 workers, low-mem on/off) and both interface summaries; non-trivial = at least one damage fault applied; distinct = distinct event-log hash",
+		Rule:        "one evaluation = one valid database (2 interfaces x 3 days x 1-4 blocks) written by the real writer, 1-3 stored-byte damage faults (truncation, bit flips, garbage range, emptied, deleted, swapped files, file of another day, trailing garbage, a flipped bit or zeroed byte in the first bytes of a stored block) applied to the column or metadata files of one (interface, day) - in one run of three one of the faults strikes while the first query runs, after a drawn number of its file-system operations - then three queries with time and interface labels (all data, victim interface only, victim day as first/last directory; 1-4 workers, low-mem on/off) and both interface summaries; non-trivial = at least one damage fault applied; distinct = distinct event-log hash",
 		Real:        realQuery,
 		Stub:        stubQuery,
 		Assumptions: []string{"silent damage cannot be detected (the format has no checksums): rows attributed to the damaged day are unconstrained", "the statistics clause is applied only when the metadata is intact", "length fields in damaged metadata are clamped to 64 MiB (see the C03 finding on allocation)"}},
